@@ -496,6 +496,10 @@ func runC06(c *Ctx) {
 		}
 	}
 
+	// ---- 0a. LowCardinality targets reused across blocks whose keys are wider than minimal (shared with C16): a decode
+	// must leave exactly the block's rows
+	c16LowCardinalityWideKeys(c)
+
 	// ---- 0b. Array / Map offsets with a decrease in the MIDDLE that stays at or below the final offset ([2,1,2], [3,0,3],
 	// [1,0,0,1]…): every total is plausible, the rows overlap or run backwards
 	{
